@@ -63,7 +63,9 @@ func EqualsIgnoreCase(str1, str2 string) bool {
 
 // HasPrefixIgnoreCase checks if str is stared with prefix in case-insensitive mode.
 func HasPrefixIgnoreCase(str, prefix string) bool {
-	return strings.HasPrefix(strings.ToLower(str), strings.ToLower(prefix))
+	// Compare the leading bytes of str itself, so a true result guarantees that
+	// str[len(prefix):] is valid (lower-casing may change the byte length).
+	return len(str) >= len(prefix) && strings.EqualFold(str[:len(prefix)], prefix)
 }
 
 // CharCount returns number of char in str.
